@@ -281,6 +281,23 @@ def stream_fsinfo(ts, rng, tier):
         yield ("fsinfo:moved", t, cases)
 
 
+def stream_fsinfo_high(t, rng):
+    """a large FAT32 template: reserved area beyond 32768 sectors with the FS-info sector and the backup boot sector moved
+    high into it (sums of the 16-bit sector fields reach 2^16), the FS-info sector planted at its new place; geometry stays
+    coherent, so the mount has to go through"""
+    fs = t.read(t.fsinfo_off, 512).hex()
+    cases = []
+    for R in (33000, 34000, 40000, 65535):
+        for k in (6, 32767, 32768, R - 2, R - 1):
+            for b in (0, 6, 32767, 32768, R - 1, 65535):
+                for strict in (0, 1):
+                    cases.append((strict, "r", "%d:%s,%s,%s,%s" % (k * t.g.bps, fs, poke1(14, 2, R), poke1(48, 2, k), poke1(50, 2, b)), None))
+    for _ in range(300):
+        R = rng.range(32769, 65535); k = rng.range(1, R - 1); b = rng.range(0, 65535)
+        cases.append((rng.below(2), "r", "%d:%s,%s,%s,%s" % (k * t.g.bps, fs, poke1(14, 2, R), poke1(48, 2, k), poke1(50, 2, b)), None))
+    yield ("fsinfo:moved-high", t, cases)
+
+
 def stream_garbage(ts, rng, n):
     for t in ts:
         cases = []
@@ -488,6 +505,7 @@ def run(rep, tier, seed):
             rep.violation("template %s was not formatted as requested" % t.name, {"theorem_or_correspondence": "setup"}, nofail=True)
             return
     base = ts[:3]
+    tbig = make_templates([("f32big", "-", 240000, 512, "32")], "default")[0]
 
     def chunks():
         # (label, template, cases, variant)
@@ -503,6 +521,9 @@ def run(rep, tier, seed):
             if len(cs) <= 20000:
                 yield lab, t, cs, "release"
         for lab, t, cs in stream_fsinfo(ts, rng, tier):
+            yield lab, t, cs, "default"
+            yield lab, t, cs, "release"
+        for lab, t, cs in stream_fsinfo_high(tbig, rng):
             yield lab, t, cs, "default"
             yield lab, t, cs, "release"
         for lab, t, cs in stream_combo(ts, rng, 25000 if quick else 200000):
